@@ -63,6 +63,8 @@ class _MessageQueueEntry(Generic[comms.Hdr]):
 
     The message will not be sent or retried if the expiry has passed.
     """
+    sequence: int = 0
+    """Position in the order in which the messages were accepted for sending."""
 
 
 @dataclass
@@ -161,6 +163,7 @@ class AirTouchSocket(Generic[comms.Hdr]):
         self._writer: Optional[asyncio.StreamWriter] = None
 
         self._message_queue: deque[_MessageQueueEntry[comms.Hdr]] = deque()
+        self._next_sequence = 0
 
         self._connection_subscribers: set[ConnectionSubscriber] = set()
         self._message_subscribers: set[MessageSubscriber[comms.Hdr]] = set()
@@ -226,8 +229,10 @@ class AirTouchSocket(Generic[comms.Hdr]):
                 message=message,
                 retries_remaining=retry_policy.max_retries,
                 expiry=self._loop.time() + retry_policy.max_lifetime,
+                sequence=self._next_sequence,
             )
         )
+        self._next_sequence += 1
         await self._drain_message_queue()
 
     def _enqueue_message(self, entry: _MessageQueueEntry[comms.Hdr]) -> None:
@@ -496,19 +501,28 @@ class AirTouchSocket(Generic[comms.Hdr]):
                 # The socket was closed while this write was in progress.
                 # Nothing is kept for a later session.
                 self._log_dropped_message(entry, "closed")
-            elif len(self._message_queue) >= MAX_MESSAGE_QUEUE_SIZE:
-                # Several writes failed at once and the queue is already full.
-                self._log_dropped_message(entry, "overflow")
             else:
-                # Return this message to the head of the queue for a retry
-                self._message_queue.appendleft(
-                    _MessageQueueEntry(
-                        header=entry.header,
-                        message=entry.message,
-                        retries_remaining=entry.retries_remaining - 1,
-                        expiry=entry.expiry,
-                    )
+                # Return this message to the queue for a retry. Several writes
+                # can fail at once, so keep the queue in the order in which the
+                # messages were accepted: older messages are sent again first.
+                retry = _MessageQueueEntry(
+                    header=entry.header,
+                    message=entry.message,
+                    retries_remaining=entry.retries_remaining - 1,
+                    expiry=entry.expiry,
+                    sequence=entry.sequence,
                 )
+                index = 0
+                while (
+                    index < len(self._message_queue)
+                    and self._message_queue[index].sequence < retry.sequence
+                ):
+                    index += 1
+                self._message_queue.insert(index, retry)
+                if len(self._message_queue) > MAX_MESSAGE_QUEUE_SIZE:
+                    # No more than the maximum is held for the link that just
+                    # went down. The most recently accepted message gives way.
+                    self._log_dropped_message(self._message_queue.pop(), "overflow")
             await self.reset_connection()
 
     async def _write(self, header: comms.Hdr, message: comms.Message) -> None:
